@@ -212,6 +212,7 @@ pub struct World {
     pub synthetic_pow: bool,
     pub desynced: bool,
     pub ingest_rounds: u64,
+    pub threshold_at_ingest_start: Option<u32>,
     pub ingest_snapshot: Option<u64>,
     pub active: BTreeSet<String>,
     pub heartbeat_traps: u64,
@@ -290,6 +291,7 @@ impl World {
             synthetic_pow,
             desynced: false,
             ingest_rounds: 0,
+            threshold_at_ingest_start: None,
             ingest_snapshot: None,
             active: active.iter().map(|s| s.to_string()).collect(),
             heartbeat_traps: 0,
@@ -384,6 +386,29 @@ impl World {
         })
     }
 
+    /// True if the block is consensus-valid at the current simulated time on its own chain
+    /// (what an honest, validating adapter relays).
+    pub fn block_valid_now(&self, id: usize) -> bool {
+        let b = &self.net.blocks[&id];
+        let Some(parent) = b.parent else {
+            return true;
+        };
+        if b.ledger.is_none() {
+            return false;
+        }
+        if matches!(
+            b.mutation,
+            Mutation::NoTransactions | Mutation::NoCoinbase | Mutation::BadMerkleRoot | Mutation::DuplicateTx | Mutation::MerkleTailDup
+        ) {
+            return false;
+        }
+        if b.mutation == Mutation::None {
+            return true; // valid by construction (the clock never lags an honest block)
+        }
+        let chain = self.net.headers_to(parent);
+        rules::validate_header(&chain, &b.block.header, self.now, self.network, !self.synthetic_pow) == HeaderVerdict::Valid
+    }
+
     /// Honest BFS answer to an initial request.
     fn honest_initial(
         &self,
@@ -400,7 +425,7 @@ impl World {
         };
         let max_id = self.net.blocks.keys().max().copied().unwrap_or(0);
         let visible = |b: &NetBlock| -> bool {
-            (b.id + lag <= max_id || lag == 0) && (include_invalid || b.mutation == Mutation::None)
+            (b.id + lag <= max_id || lag == 0) && (include_invalid || self.block_valid_now(b.id))
         };
         let mut known: BTreeSet<usize> = BTreeSet::new();
         known.insert(anchor_id);
